@@ -212,9 +212,14 @@ CLAIMED['C10'] = (
     'inbound SPI) of the CHILD_SA with its protocol; IkeSa.delete_child_sas deletes exactly those pairs for every tracked '
     'CHILD_SA in order (inductive loop invariant over a recursive effect specification) and leaves none tracked; '
     'Xfrm.create_child_sa installs exactly two SAs; dispatch_message deletes the CHILD_SAs of an IKE_SA that ended '
-    'before dropping it from the table.  Frame fact: child_sas is assigned or mutated only in the listed handlers.',
+    'before dropping it from the table; IkeSa.process_informational_response (verified handler): the answer to a CHILD_SA '
+    'delete request deletes exactly the two kernel SAs of the CHILD_SA being deleted and un-tracks one entry -- or touches '
+    'nothing if it is no longer tracked (the peer\'s delete came first) --, the answer to an IKE_SA delete ends the IKE_SA '
+    'without kernel effects, the answer to a liveness probe changes nothing but the state; IkeSa.process_expire: a hard '
+    'expiry asks for the deletion of exactly the owning CHILD_SA, a soft one for a rekey that replaces exactly it.  Frame fact: child_sas is assigned or mutated only in the listed handlers.',
     'The handlers that decide WHEN a CHILD_SA is installed, replaced or handed to a successor '
-    '(process_create_child_sa_*, process_informational_*, _process_create_child_sa_negotiation_*) are ASSUMED contracts: '
+    '(process_create_child_sa_*, process_informational_request, _process_create_child_sa_negotiation_*) are ASSUMED '
+    'contracts; python equality of CHILD_SA records (proposals compare as sets) is an uninterpreted reflexive relation: '
     'the SAD == tracked-set invariant over histories, and the failure paths F5 / F11 of DESIGN.md section 7, are not '
     'decided.' + TIERB_NOTE,
     'DESIGN.md section 6 C10')
